@@ -2,11 +2,11 @@
 # seedrun.sh <ID> <N> [check ids...] : confirm a seeded change and run the check(s) against it
 ID=$1; N=$2; shift 2
 CHECKS=${@:-$ID}
-D=/tmp/seed-$ID-out/$N
+D=/tmp/${SEEDPREFIX:-seed}-$ID-out/$N
 V=$(python3 /verif/scripts/seedverify.py $D 2>&1 | tail -1)
-echo "SEED $ID-$N verify: $V"
+echo "SEED${SEEDTAG:-} $ID-$N verify: $V"
 for c in $CHECKS; do
   out=$(cd /verif && scripts/with-mutant.sh $D/patch.diff ./vcheck $c --tier quick 2>&1)
   rc=$?
-  echo "SEED $ID-$N check $c rc=$rc :: $(echo "$out" | grep -m1 'clause=' | cut -c1-200) :: $(echo "$out" | grep 'tier=' | tail -1 | cut -c1-120)"
+  echo "SEED${SEEDTAG:-} $ID-$N check $c rc=$rc :: $(echo "$out" | grep -m1 'clause=' | cut -c1-200) :: $(echo "$out" | grep 'tier=' | tail -1 | cut -c1-120)"
 done
